@@ -5,6 +5,7 @@ import (
 	"context"
 	"encoding/hex"
 	"fmt"
+	"github.com/btcsuite/btcd/btcec/v2"
 	"strings"
 	"sync"
 	"testing"
@@ -273,6 +274,27 @@ func runC17SIDs(c *mon.Case) {
 		kd, _ := mailbox.NewConnData(keyA, keyB.PubKey(), p2, nil, nil, nil).SID()
 		if kd != ka {
 			c.Shard.Violate("key-sid-depends-on-passphrase", "after pairing the SID changes with the passphrase", nil)
+		}
+		// the life cycle of one ConnData: it derived the passphrase SID
+		// above, now it learns the peer's key (as the pairing handshake
+		// does), later another one: every time it must name the rendezvous
+		// that a party starting afresh with that stored key derives
+		okCB := func(*btcec.PublicKey) error { return nil }
+		a3 := mailbox.NewConnData(keyA, nil, pass, nil, okCB, nil)
+		if i%2 == 0 {
+			a3 = a
+		}
+		_, _ = a3.SID()
+		errA, errB := a3.SetRemote(keyB.PubKey()), b.SetRemote(keyA.PubKey())
+		la, err1 := a3.SID()
+		lb, err2 := b.SID()
+		if errA != nil || errB != nil || err1 != nil || err2 != nil || la != ka || lb != ka {
+			c.Shard.Violate("sid-stale-after-pairing", fmt.Sprintf("a ConnData that derived the passphrase SID and then stored the peer's key names SID %x.. / %x.., a party starting with the stored key derives %x.. (errors %v %v %v %v)", la[:8], lb[:8], ka[:8], errA, errB, err1, err2), nil)
+		}
+		if err := a3.SetRemote(keyC.PubKey()); err == nil {
+			if lc, _ := a3.SID(); lc != kc {
+				c.Shard.Violate("sid-stale-after-key-change", fmt.Sprintf("after the stored remote key was replaced the ConnData names SID %x.., a party starting with the new key derives %x..", lc[:8], kc[:8]), nil)
+			}
 		}
 		// a signer that fails: no identifier may be produced (a constant
 		// fallback would make unrelated sessions share their streams)
